@@ -332,3 +332,16 @@ func (g *Gen) scenario() []N {
 		return g.scenSwitch()
 	}
 }
+
+// ScenarioProgram is a program made of n targeted scenario fragments only
+// (used where the interesting part is the shared compiled tree: C20).
+func (g *Gen) ScenarioProgram(n int) []N {
+	g.inFunc, g.loops, g.breakOK, g.labels, g.funcs, g.vars, g.objs, g.params = false, 0, 0, nil, nil, nil, nil, nil
+	body := []N{Var("a", Num(1)), Var("b", Str("s")), Var("c", nil), Var("n", Num(0))}
+	g.vars = []string{"a", "b", "c"}
+	body = append(body, g.scenArguments()...)
+	for i := 1; i < n; i++ {
+		body = append(body, g.scenario()...)
+	}
+	return body
+}
